@@ -27,7 +27,7 @@ def run(chk: Check) -> None:
     snapshot_isolation(chk)
     loader_precedence(chk, 'PROV-loader')
     pl = prog.cls('process_comms.ProcessLauncher')
-    call = prog.view(pl.methods['__call__'])
+    call = prog.view(pl.vmethods['__call__'])
     # 1. DISP
     tparam = call.params[2]
     subj = None
@@ -62,7 +62,7 @@ def run(chk: Check) -> None:
     # 2. body / handler agreement
     for body_fn, handler, task in (('create_launch_body', '_launch', 'launch'), ('create_continue_body', '_continue', 'continue'), ('create_create_body', '_create', 'create')):
         bf = prog.func(f'process_comms.{body_fn}')
-        hf = prog.view(pl.methods[handler])
+        hf = prog.view(pl.vmethods[handler])
         dicts = [n for n in ast.walk(bf.node) if isinstance(n, ast.Dict)]
         outer = None
         for d in dicts:
@@ -100,7 +100,7 @@ def run(chk: Check) -> None:
 
     # 3. rejection guards, 4. persist before run / create does not run, 5. loader
     for handler in ('_launch', '_create'):
-        hf = prog.view(pl.methods[handler])
+        hf = prog.view(pl.vmethods[handler])
         cfg = cfg_of(hf)
         ff = chk.ctx.facts.analyse(hf)
         ctor = [n for n in cfg.nodes if any(isinstance(c.func, ast.Name) and c.func.id == 'proc_class' for c in _calls(n))]
@@ -144,12 +144,12 @@ def run(chk: Check) -> None:
             except RuntimeError:
                 got.add('<too many paths>')
             # (a per-INSTANCE memo filled only from this launcher's loader is the same thing; a class-level one is shared between launchers)
-            init_f = pl.methods.get('__init__')
+            init_f = pl.vmethods.get('__init__')
             inst_attrs = {t.attr for n in ast.walk(init_f.node) if isinstance(n, (ast.Assign, ast.AnnAssign)) for t in (n.targets if isinstance(n, ast.Assign) else [n.target])
                           if isinstance(t, ast.Attribute) and norm(t.value) == 'self'} if init_f is not None else set()
             memo_ok = set()
             for a in inst_attrs:
-                stores = [n for f_ in pl.methods.values() for n in ast.walk(f_.node) if isinstance(n, ast.Assign) and any(isinstance(t, ast.Subscript) and norm(t.value) == f'self.{a}' for t in n.targets)]
+                stores = [n for f_ in pl.vmethods.values() for n in ast.walk(f_.node) if isinstance(n, ast.Assign) and any(isinstance(t, ast.Subscript) and norm(t.value) == f'self.{a}' for t in n.targets)]
                 if stores and all(isinstance(n.value, ast.Call) and norm(n.value.func) == 'self._loader.load_object' for n in stores):
                     memo_ok.add(f'self.{a}[{hf.params[2]}]')
             ok_cls = bool(got) and (got - memo_ok) <= {want}
@@ -160,7 +160,7 @@ def run(chk: Check) -> None:
             chk.ob('PROV-loader', hf, ok, f'{handler}: constructed with exactly the task\'s positional and keyword arguments', node=c, kind='ctor-args')
     # nowait
     for handler in ('_launch', '_continue'):
-        hf = prog.view(pl.methods[handler])
+        hf = prog.view(pl.vmethods[handler])
         cfg = cfg_of(hf)
         ff = chk.ctx.facts.analyse(hf)
         sched = [n for n in cfg.nodes if any(last_name(c) in ('ensure_future', 'create_task') and 'proc.step_until_terminated()' in norm(c) for c in _calls(n))]
@@ -174,7 +174,7 @@ def run(chk: Check) -> None:
             and pid_rets[0].id not in cfg.reachable(awaits, edge_ok=no_exc)
         chk.ob('DOM-nowait', hf, ok, f'{handler}: nowait replies with the id immediately; otherwise the reply is the process\'s outputs or its error (future().result())', kind='replies')
     # _continue
-    cf = prog.view(pl.methods['_continue'])
+    cf = prog.view(pl.vmethods['_continue'])
     cfg = cfg_of(cf)
     rej = [t for t in cfg.nodes if t.kind == 'test' and norm(t.ast.test) in ('not self._persister', 'self._persister is None')]
     loads = [n for n in cfg.nodes if any(norm(c.func) == 'self._persister.load_checkpoint' for c in _calls(n))]
@@ -186,7 +186,7 @@ def run(chk: Check) -> None:
     ub = [c for c in calls_in_func(cf, 'unbundle')]
     ok = len(ub) == 1 and norm(ub[0].func.value) == 'saved_state' and [norm(a) for a in ub[0].args] == ['self._load_context']
     chk.ob('PROV-loader', cf, ok, 'the process is rebuilt from that checkpoint with the launcher\'s load context', kind='unbundle-with-context')
-    init = prog.view(pl.methods['__init__'])
+    init = prog.view(pl.vmethods['__init__'])
     ff = chk.ctx.facts.analyse(init)
     icfg = ff.cfg
     ext = [n for n in icfg.nodes if n.kind == 'stmt' and isinstance(n.ast, ast.Assign) and norm(n.ast.targets[0]) == 'self._load_context' and 'copyextend(loader=loader)' in norm(n.ast.value)]
